@@ -16,10 +16,36 @@ import (
 	"github.com/mazrean/kessoku/internal/pkg/collection"
 )
 
+const (
+	unsafePkgPath = "unsafe"
+	unsafePkgName = "unsafe"
+)
+
 // createASTTypeExpr creates an AST type expression from a types.Type and updates existingImports
 func createASTTypeExpr(pkg string, t types.Type, varPool *VarPool, imports map[string]*Import) (ast.Expr, error) {
 	switch typ := t.(type) {
 	case *types.Basic:
+		if typ.Kind() == types.UnsafePointer {
+			// unsafe.Pointer is the one basic type that has to be qualified with its package
+			pkgName := unsafePkgName
+			if imp, exists := imports[unsafePkgPath]; exists {
+				pkgName = imp.Name
+			} else {
+				newPkgName := varPool.GetName(pkgName)
+				imports[unsafePkgPath] = &Import{
+					Name:          newPkgName,
+					IsDefaultName: newPkgName == pkgName,
+					IsUsed:        false, // Will be marked during code generation
+				}
+				pkgName = newPkgName
+			}
+
+			return &ast.SelectorExpr{
+				X:   ast.NewIdent(pkgName),
+				Sel: ast.NewIdent(typ.Name()),
+			}, nil
+		}
+
 		return ast.NewIdent(typ.Name()), nil
 	case *types.Pointer:
 		expr, err := createASTTypeExpr(pkg, typ.Elem(), varPool, imports)
